@@ -269,6 +269,61 @@ pub fn h_shim_verify<S: Src, const N: usize>(s: &mut S) {
         _ => vassert!(s, false, "shim verify: result class follows the parser and the predicate"),
     }
 }
+// ---------------------------------------------------------------- length_count / alt
+pub fn h_shim_length_count<S: Src, const N: usize>(s: &mut S) {
+    use tp::nom::multi::length_count;
+    let buf: [u8; N] = s.bytes();
+    let n = s.usize();
+    vassume!(s, n <= N);
+    let i = &buf[..n];
+    // count parser: counts 0..3 (keeps the loop within the unwinding bound), every error class
+    fn cnt(i: &[u8]) -> IResult<&[u8], u8> {
+        match elem(i) { Ok((rem, v)) => Ok((rem, v & 3)), Err(e) => Err(e) }
+    }
+    let r: R<Vec<u8>> = length_count(cnt, elem)(i);
+    // reference: the explicit count loop
+    let exp: R<Vec<u8>> = match cnt(i) {
+        Err(e) => Err(e),
+        Ok((mut cur, cnt)) => {
+            let mut acc: Vec<u8> = Vec::new();
+            let mut out: Option<R<Vec<u8>>> = None;
+            let mut k = 0usize;
+            while k < cnt as usize {
+                match elem(cur) { Ok((nx, o)) => { acc.push(o); cur = nx; } Err(e) => { out = Some(Err(e)); break; } }
+                k += 1;
+            }
+            match out { Some(e) => e, None => Ok((cur, acc)) }
+        }
+    };
+    match (&exp, &r) {
+        (Ok((rem0, v0)), Ok((rem, v))) => vassert!(s, v0 == v && rem.as_ptr() == rem0.as_ptr() && rem.len() == rem0.len(), "shim length_count: exactly count elements in order, remainder after the last"),
+        (Err(e0), Err(e)) => vassert!(s, e0 == e, "shim length_count: the first error of the count or element parser is returned unchanged"),
+        _ => vassert!(s, false, "shim length_count: result class is that of the explicit count loop"),
+    }
+}
+pub fn h_shim_alt<S: Src, const N: usize>(s: &mut S) {
+    use tp::nom::branch::alt;
+    use tp::nom::combinator::complete;
+    let buf: [u8; N] = s.bytes();
+    let n = s.usize();
+    vassume!(s, n <= N);
+    let i = &buf[..n];
+    fn second(i: &[u8]) -> IResult<&[u8], u8> {
+        if i.len() < 2 { return Err(Err::Incomplete(Needed::new(2 - i.len()))); }
+        if i[1] == 0xff { return Err(Err::Error(make_error(i, ErrorKind::Digit))); }
+        Ok((&i[2..], i[1]))
+    }
+    let r: R<u8> = alt((elem, second))(i);
+    let exp: R<u8> = match elem(i) { Err(Err::Error(_)) => second(i), x => x };
+    match (&exp, &r) {
+        (Ok((rem0, v0)), Ok((rem, v))) => vassert!(s, v0 == v && rem.as_ptr() == rem0.as_ptr() && rem.len() == rem0.len(), "shim alt: first branch unless it is Error, then the second branch"),
+        (Err(e0), Err(e)) => vassert!(s, e0 == e, "shim alt: Incomplete/Failure of the first branch returned at once; both Error => the second branch's error"),
+        _ => vassert!(s, false, "shim alt: result class"),
+    }
+    let _ = complete(elem);
+}
+harness!(shim_length_count, unwind = 7, h_shim_length_count::<_, 4>);
+harness!(shim_alt, unwind = 6, h_shim_alt::<_, 4>);
 harness!(shim_verify, unwind = 6, h_shim_verify::<_, 4>);
 harness!(shim_pair, unwind = 6, h_shim_pair::<_, 4>);
 harness!(shim_opt_cond, unwind = 6, h_shim_opt_cond);
